@@ -70,6 +70,7 @@ def check(lines):
     first_idle_seen = False
     ever_stopped = False  # a stop() call was seen: C02's "no event lost, duplicated or reordered" applies
     idles_stopped = 0     # idle points seen in the current run() while stopped (since the later of stop / run entry)
+    second_idle_t = None  # clock at a second idle point reached while stopped
     in_run = False        # between `C top run` and its R line
     run_handlers = 0      # handlers the loop invoked in the current run()
     run_fires = 0         # timer expiries the loop processed in the current run()
@@ -137,13 +138,17 @@ def check(lines):
             if stopped:
                 # stop() lets the current round finish (ready handlers, then one clock step whose
                 # completions are posted but not run); the loop must not go round again
-                if idles_stopped >= 1:
-                    f2.append(("stop_takes_effect", "the loop reached a second idle point (t=%d) although stop() had been called and restart() had not" % ev[1]))
+                # (a further idle point at which nothing happens is not observable through the API: only a
+                # handler run or a clock change after it is held against the implementation)
+                if idles_stopped >= 1 and second_idle_t is None: second_idle_t = ev[1]
                 idles_stopped += 1
             do_idle(ev[1])
             continue
         if k == "R":
             observe_time(ev[2], "run-return")
+            if stopped and second_idle_t is not None and ev[2] != second_idle_t:
+                f2.append(("stop_takes_effect", "the clock moved %d -> %d in a further round of the loop although stop() had been called and restart() had not" % (second_idle_t, ev[2])))
+            second_idle_t = None
             if in_run: stats["run_count_checked"] += 1
             if in_run and stopped: stats["stopped_rounds_checked"] += 1
             if in_run and ev[1] != run_handlers + run_fires:
@@ -236,11 +241,11 @@ def check(lines):
                 last_t = expect_after_idle
             if o == "run":
                 if ctx == "top":
-                    in_run = True; run_handlers = 0; run_fires = 0; idles_stopped = 0
+                    in_run = True; run_handlers = 0; run_fires = 0; idles_stopped = 0; second_idle_t = None
                 continue
             ops_since_R = True
             if o == "stop":
-                if not stopped: idles_stopped = 0
+                if not stopped: idles_stopped = 0; second_idle_t = None
                 stopped = True; ever_stopped = True
                 stats["stop_calls"] += 1
                 if ctx == "top": stats["stop_at_top"] += 1
@@ -253,7 +258,7 @@ def check(lines):
                     npost = sum(1 for p_ in posted if p_[0] not in done)
                     if nw >= 2: stats["restart_with_2_waits_pending"] += 1
                     if nw >= 1 and npost >= 1: stats["restart_with_wait_and_post_pending"] += 1
-                stopped = False; idles_stopped = 0; continue
+                stopped = False; idles_stopped = 0; second_idle_t = None; continue
             if o == "now":
                 observe_time(int(res), "clock read"); continue
             if o in ("post", "defer", "dispatch"):
